@@ -6,7 +6,7 @@ set -e
 WT="$1"; PROP="$2"; TIER="${3:-quick}"
 SRC="$(cd "$(dirname "$0")/.." && pwd)"
 DST="/tmp/verif-mut-$$"
-rsync -a --exclude .work --exclude replays --exclude harness/bin --exclude .git "$SRC/" "$DST/"
+rsync -a --exclude .work --exclude replays --exclude harness/bin --exclude .git "$SRC/" "$DST/" || [ $? -eq 24 ]  # 24 = files vanished while copying (concurrent builds)
 sed -i "s#=> /repo#=> $WT#" "$DST/harness/go.mod"
 cd "$DST"
 set +e
